@@ -74,12 +74,17 @@ CHECKS = {
         "design_ref": "DESIGN.md §8 C07",
     },
     "C08": {
-        "text": "Recovery steps are theorems: c08_skip_exceeded (skip exactly to the end the violated size field declares, enclosing regions charged the consumed bytes, nested "
-                "regions end) and c08_pad_subceeded (pad exactly to the declared end, charged to enclosing regions). Whole-run clauses (no escape except the two allowed value "
-                "errors; tiling of the input by fields, skipped tails and surplus; value-only runs) are monitored on the real code over fault-enumerated and arbitrary inputs "
-                "and tied to the model by warn-mode correspondence. Seven genuine defects were repaired (known_findings.jsonl); one remains a KNOWN-FINDING.",
-        "technique": "Lean 4 proofs of the recovery steps + tiling monitor + warn-mode correspondence",
-        "design_ref": "DESIGN.md §8 C08",
+        "text": "Theorems about the model, for every layout of /repo, commands, responses (any command code, either flag), streams and EVERY input: "
+                "(1) no size error ever leaves a warn-mode decode (Warn.lean: WI for every walker; c08_no_escape_msg/_type) - whatever is raised is one of the two value errors after which the layout is unknowable; "
+                "(2) no internal error either, but for the known response-encryption assertion (WarnNC.lean: the regions a successful step leaves are the ones it found, each charged exactly the bytes consumed - "
+                "across reported overruns, shortfalls and bad values - so assert_done finds its region, the session loop's bound is never hit and the stream loop terminates; "
+                "c08_warn_no_crash_type/_command, c08_warn_crash_msg, c08_warn_outcomes); (3) tiling: the input consumed is, in order, one segment per event shown - a field's bytes at its declared width, "
+                "the skipped tail (exactly max-already) of an overrun region, the padding of a short one (AcctW, c08_tiling); (4) the recovery steps c08_skip_exceeded / c08_pad_subceeded; "
+                "(5) value-only runs re-encode to the input (C02.c02_warn_value_only) and the first problem is the first warning (C07). Side conditions on the tables are kernel-decided over the tables regenerated from /repo. "
+                "The model is tied to the code by warn-mode correspondence (fault-enumerated, double-fault, nested, mutated and arbitrary inputs) and the same clauses are monitored on the implementation's own observations. "
+                "Nine genuine defects were repaired (known_findings.jsonl); one remains a KNOWN-FINDING.",
+        "technique": "Lean 4 proofs by mutual structural induction over all layouts and walkers (invariants WI, WC, AcctW, PI) + kernel-decided table side conditions + warn-mode correspondence + monitors",
+        "design_ref": "DESIGN.md \u00a78 C08",
     },
     "C09": {
         "text": "c09_stream_step / c09_stream_end: one round of the stream loop is exactly 'command where the previous message ended, then response under that command's "
